@@ -3,8 +3,72 @@
 -/
 import EG.Driver.Line
 import EG.Model.ThickLine
+import EG.Model.ThickPolyline
+import EG.Model.ThickTriangle
 namespace EG.Driver
 open EG
+
+/-- `n` points from the token list. -/
+private def takePts : Nat → Toks → List Pt × Toks
+  | 0, t => ([], t)
+  | n + 1, t =>
+    let (p, t) := t.pt
+    let (ps, t) := takePts n t
+    (p :: ps, t)
+
+/-- A rectangle list as a point list `tl, (w, h), tl, (w, h), ..` (digested like a point list). -/
+private def rectsAsPts (rs : List Rect) : List Pt :=
+  rs.flatMap (fun r => [r.tl, (⟨(r.size.w : Int), (r.size.h : Int)⟩ : Pt)])
+
+private def fmtPolyDraw : Joins.PolyDraw → String
+  | .nothing => "-"
+  | .drawIter pts => "di:" ++ fmtPtsDigest pts
+  | .fillSolids [] => "-"        -- no call at all: the log is empty
+  | .fillSolids rs => "fs:" ++ fmtPtsDigest (rectsAsPts rs)
+
+/-- `-` or a colour number. -/
+private def optColor (t : Toks) : Option Nat × Toks :=
+  let (s, t) := t.str
+  (if s == "-" then none else some (parseNat s), t)
+
+/-- `fill_solid` calls with colours as the point list `tl, (w, colour), ..` (the height is 1). -/
+private def colRectsAsPts (rs : List (Rect × Nat)) : List Pt :=
+  rs.flatMap (fun (r, c) => [r.tl, (⟨(r.size.w : Int), (c : Int)⟩ : Pt)])
+
+/-- Coloured pixels as the point list `p, (colour, 0), ..`. -/
+private def colPixAsPts (ps : List (Pt × Nat)) : List Pt :=
+  ps.flatMap (fun (p, c) => [p, (⟨(c : Int), 0⟩ : Pt)])
+
+private def kindChar : Joins.JoinKind → Char
+  | .miter => 'M'
+  | .bevel .left => 'b'
+  | .bevel .right => 'B'
+  | .degenerate .left => 'd'
+  | .degenerate .right => 'D'
+  | .colinear => 'C'
+  | .start => 'S'
+  | .stop => 'E'
+
+/-- Kinds of the interior joins of a polyline and its number of skeleton segments. -/
+private def polyKinds (vs : List Pt) (w : Nat) : Option (String × Nat) := do
+  let it ← Joins.ThickSegmentIter.new vs w
+  let segs ← it.toList
+  let ks := segs.dropLast.map (fun s => kindChar s.endJoin.kind)
+  pure (if ks.isEmpty then "-" else String.ofList ks, (segs.filter (·.isSkeleton)).length)
+
+/-- Kinds of the three joins of the clockwise-sorted triangle and `is_collapsed`. -/
+private def triKinds (t : Joins.Tri) (w : Nat) (off : Thick.StrokeOffset) : Option (String × Bool) := do
+  let tc := t.sortedClockwise
+  let j0 ← Joins.LineJoin.fromPoints (tc.vertex 0) (tc.vertex 1) (tc.vertex 2) w off
+  let j1 ← Joins.LineJoin.fromPoints (tc.vertex 1) (tc.vertex 2) (tc.vertex 3) w off
+  let j2 ← Joins.LineJoin.fromPoints (tc.vertex 2) (tc.vertex 3) (tc.vertex 4) w off
+  let c ← tc.isCollapsed w off
+  pure (String.ofList [kindChar j0.kind, kindChar j1.kind, kindChar j2.kind], c)
+
+private def stuckOr (o : Option String) : String :=
+  match o with
+  | some s => s
+  | none => "stuck"
 
 def handleThick (stream : String) (t : Toks) : Option String :=
   match stream with
@@ -22,6 +86,40 @@ def handleThick (stream : String) (t : Toks) : Option String :=
     match Thick.styledBoundingBox ⟨s, e⟩ w with
     | some r => some (fmtRect r)
     | none => some "stuck"
+  | "thick.polyline" =>
+    let (tr, t) := t.pt
+    let (n, t) := t.nat
+    let (vs, t) := takePts n t
+    let (w, _) := t.nat
+    let pl : Polyline := ⟨tr, vs⟩
+    some (stuckOr (do
+      let bb ← Joins.styledBoundingBox pl w
+      let dr ← Joins.drawStyled pl w
+      let px ← Joins.pixels pl w
+      let (ks, sk) ← polyKinds vs w
+      pure s!"bb={fmtRect bb} k={ks} s={sk} draw={fmtPolyDraw dr} px={fmtPtsDigest px}"))
+  | "thick.triangle" =>
+    let (d, t) := t.pt
+    let (a, t) := t.pt
+    let (b, t) := t.pt
+    let (c, t) := t.pt
+    let (w, t) := t.nat
+    let (al, t) := t.nat
+    let (fill, t) := optColor t
+    let (stroke, _) := optColor t
+    let align : Joins.StrokeAlignment := match al with
+      | 0 => .inside
+      | 1 => .center
+      | _ => .outside
+    let tri : Joins.Tri := (⟨a, b, c⟩ : Joins.Tri).translate d
+    let style : Joins.TriStyle := ⟨fill, stroke, w, align⟩
+    some (stuckOr (do
+      let bb ← Joins.triStyledBoundingBox tri style
+      let dr ← Joins.triDraw tri style
+      let px ← Joins.triPixels tri style
+      let d := if dr.isEmpty then "-" else "fs:" ++ fmtPtsDigest (colRectsAsPts dr)
+      let (ks, col) ← triKinds tri w align.toOffset
+      pure s!"bb={fmtRect bb} k={ks} c={if col then 1 else 0} draw={d} px={fmtPtsDigest (colPixAsPts px)}"))
   | _ => none
 
 end EG.Driver
